@@ -67,28 +67,25 @@ def check_one(ctx, data, label):
 
 
 def run(task, ctx):
-    watch = runner.Watch(4)
-    try:
-        for label, data in fuzzspace.inputs(task, ctx.tier, ctx.seed):
-            if ctx.outcomes.get('hang', 0) >= 3:
-                ctx.cap('a task was abandoned after 3 non-terminating inputs')
-                break
-            watch.tick()
-            deep = check_one(ctx, data, label)
-            if ctx.outcomes.get('hang'):
-                watch.rearm()
-            ctx.case(data, deep, sample=lambda: {'label': label,
-                                                 'input': data[:48].hex(),
-                                                 'len': len(data)})
-            ctx.calls()
-            ctx.valid()
-    finally:
-        watch.close()
+    ctx.rearm(4)      # short watchdog: inputs that hang are reported singly
+    for label, data in fuzzspace.inputs(task, ctx.tier, ctx.seed):
+        if ctx.outcomes.get('hang', 0) >= 3:
+            ctx.cap('a task was abandoned after 3 non-terminating inputs')
+            break
+        deep = check_one(ctx, data, label)
+        if ctx.outcomes.get('hang'):
+            ctx.rearm(4)
+        ctx.case(data, deep, sample=lambda: {'label': label,
+                                             'input': data[:48].hex(),
+                                             'len': len(data)})
+        ctx.calls()
+        ctx.valid()
 
 
 def replay(case, ctx):
-    watch = runner.Watch(10)
     try:
-        check_one(ctx, bytes.fromhex(case['hex']), case.get('label', ''))
-    finally:
-        watch.close()
+        with runner.guard(20):
+            check_one(ctx, bytes.fromhex(case['hex']), case.get('label', ''))
+    except runner.Hang:
+        ctx.violation('escape|hang', 'decoding did not terminate', case,
+                      'termination', 'hang')
